@@ -201,3 +201,18 @@ META = {
     ],
     'trusted_base': [],
 }
+
+
+# ---------------------------------------------------------------- the per-author bypass map (an input of the contract)
+def extra(rep, tier, seed, budget):
+    # job.author_bypass is an input above; the map it reads is built by settings.PrAuthorsOptions.deserialize,
+    # checked by a bounded stand-in on the real function (labelled bounded, not counted as proved)
+    from bounded import author_options
+    author_options.integrate(rep)
+
+
+def replay_file(data):
+    from bounded import author_options
+    if isinstance(data.get('case'), dict) and data.get('clause') in ('map', 'authors', 'crash', 'unknown'):
+        return author_options.replay(data['case'])
+    return None
